@@ -24,6 +24,9 @@ def block(rng, kind, span, grow_ok=True, amp=1.0):
             lam = -lam
         b = rng.uniform(-1, 1)
         return {"k": "lin", "p": [fp(lam), fp(b)]}, [amp * rng.uniform(0.3, 1.5) * rng.choice([-1, 1])], 1, max(lam, 0), abs(lam)
+    if kind == "grow":    # y' = lam y with lam > 0: steps are accepted with small estimates, doubled, and sometimes rejected
+        lam = rng.uniform(0.5, 1.5)
+        return {"k": "lin", "p": [fp(lam), fp(0.0)]}, [amp * rng.uniform(0.5, 1.5) * rng.choice([-1, 1])], 1, lam, lam
     if kind == "rot":
         a = rng.uniform(-1.0, 0.5)
         if a > 0 and a * span > 4.0:
